@@ -371,7 +371,8 @@ def tpRenderTABLE(self, id, root_url, url, state, substate, diff, data,
                     exp = i + 1
                     break
 
-            s = encode_str(compress(json.dumps(diff)))  # bytes in ASCII enc.
+            s = encode_str(compress(
+                json.dumps(diff, ensure_ascii=False)))  # bytes in ASCII enc.
 
             # For rendering the encoded state string in a URL,
             # we must lose the "b" prefix by decoding
@@ -576,7 +577,7 @@ def apply_diff(state, diff, expand):
 
 def encode_seq(state):
     """Convert a sequence to an encoded string"""
-    state = compress(json.dumps(state))
+    state = compress(json.dumps(state, ensure_ascii=False))
     l_ = len(state)
 
     if l_ > 57:
@@ -669,7 +670,7 @@ def compress(input):
     if not isinstance(input, str):
         raise ValueError("Input should be text")
     if not isinstance(input, bytes):
-        input = input.encode('utf-8')
+        input = input.encode('utf-8', 'surrogatepass')
     return zlib.compress(input)
 
 
@@ -680,7 +681,7 @@ def decompress(input):
     """
     if not isinstance(input, bytes):
         raise ValueError("Input should be bytes")
-    return zlib.decompress(input).decode('utf-8')
+    return zlib.decompress(input).decode('utf-8', 'surrogatepass')
 
 
 def tpStateLevel(state, level=0):
